@@ -24,8 +24,9 @@ fn mc_coverage(stats: &BfsStats, models: &[String], extra: Value) -> Value {
         "transitions": stats.transitions,
         "traces_validated_against_impl": stats.transitions,
         "samples": stats.samples,
-        "exhaustive": stats.closed,
+        "exhaustive": stats.closed || stats.bounded_complete,
         "closed": stats.closed,
+        "bounded_complete": stats.bounded_complete,
         "max_depth": stats.max_depth,
         "dead_ends_after_panic": stats.dead_ends,
         "pruned_after_state_corrupting_violation": stats.pruned,
@@ -93,6 +94,10 @@ fn history_engines(tier: Tier, budget: f64) -> (BfsStats, Vec<Found>, Vec<String
     merge_stats(&mut stats, &r.stats);
     found.extend(r.found);
     models.extend(r.models);
+    let r = crate::nodemc::explore(tier, true, budget / 3.0);
+    merge_stats(&mut stats, &r.stats);
+    found.extend(r.found);
+    models.extend(r.models);
     (stats, found, models)
 }
 
@@ -138,6 +143,15 @@ pub fn c14(tier: Tier) -> i32 {
     run.finish(mc_coverage(&r.stats, &r.models, json!({"violations_of_other_properties_seen": others})))
 }
 
+pub fn c15(tier: Tier) -> i32 {
+    let mut run = Run::new("C15", tier, "model_checking", "nodemc");
+    let r = crate::nodemc::explore(tier, false, tier.pick(50.0, 1500.0));
+    let others = add_found(&mut run, "C15", &r.found);
+    run.assume("channels 1 (full life cycle) and 2 (stub); block macro-steps of 1, 98 and 99 empty blocks straddle MIN_DEPTH = 100; histories of <= 5 (7) letters per scenario");
+    run.assume("burial depth is computed from the harness's own copy of the best chain");
+    run.finish(mc_coverage(&r.stats, &r.models, json!({"violations_of_other_properties_seen": others})))
+}
+
 pub fn c16(tier: Tier) -> i32 {
     crate::kvvmc::main(tier)
 }
@@ -170,6 +184,8 @@ pub fn dump(engine: &str, tier: Tier) -> i32 {
         "cp" => chanfsm::explore(tier, Side::Cp, true, 600.0).found,
         "chain" => crate::chainmc::explore(tier, 900.0).found,
         "c13" => crate::chain13::explore(tier, 900.0).found,
+        "node" => crate::nodemc::explore(tier, true, 900.0).found,
+        "c15" => crate::nodemc::explore(tier, false, 900.0).found,
         _ => vec![],
     };
     for f in &found {
